@@ -21,7 +21,8 @@
 (*          [t |-> "pfx", p |-> Str] p|E                                      *)
 (* compound = Seq(simple); Complex = [cs |-> Seq(compound), cb |-> Seq(Comb)] *)
 (* with Len(cb) = Len(cs) - 1; Comb \in {" ", ">", "+", "~"}; list = Seq(Complex) *)
-(* env = [nsmap |-> Seq([p |-> Str, u |-> Str]), scope |-> node]              *)
+(* env = [nsmap |-> Seq([p |-> Str, u |-> Str]), scope |-> node,              *)
+(*        custom |-> Seq([name |-> Str, def |-> Seq(Complex)]) (optional)]     *)
 EXTENDS Integers, Sequences, FiniteSets, Str, Dom, Lang, TextSem, HtmlState, Calendar
 
 Bare == [t |-> "bare"]
@@ -104,6 +105,9 @@ Rel(d, comb, l, r) ==      \* element r stands in relation comb to element l on 
 
 HasType(comp) == \E n \in 1..Len(comp) : comp[n].k = "type"
 
+CustomDef(env, nm) == env.custom[CHOOSE n \in 1..Len(env.custom) : env.custom[n].name = nm].def
+CustomDefined(env, nm) == \E n \in 1..Len(env.custom) : env.custom[n].name = nm
+
 RECURSIVE MatchS(_, _, _, _), MatchC(_, _, _, _, _), MatchCx(_, _, _, _, _, _, _, _), MatchList(_, _, _, _)
 
 \* i matches compound n of cx and everything to its left; when n = 1 and acomb # ""
@@ -140,7 +144,8 @@ MatchS(d, env, s, i) ==
                               MatchCx(d, env, s.args[n].cx, Len(s.args[n].cx.cs), j, FALSE, i, s.args[n].comb)
       [] s.k = "root"  -> RootHolds(d, i)
       [] s.k = "empty" -> EmptyHolds(d, i)
-      [] s.k = "scope" -> i = env.scope
+      [] s.k \in {"scope", "amp"} -> i = env.scope      \* :scope and the nesting selector &
+      [] s.k = "custom" -> MatchList(d, env, CustomDef(env, s.name), i)   \* :--name, env.custom = Seq([name, def])
       [] s.k = "none"  -> FALSE
       [] s.k = "first-child" -> PrevElSibs(d, i) = {}
       [] s.k = "last-child"  -> NextElSibs(d, i) = {}
